@@ -383,6 +383,111 @@ theorem percent_byte_plain (b : UInt8) : shouldEscape b = false → (b == 0x25) 
   apply byte_cases
   decide
 
+/-! ### the repository's own decoders -/
+
+set_option maxRecDepth 100000 in
+theorem unhex_upper (b : UInt8) :
+    unhexDigit (upperHex (b.toNat / 16)) = some (b.toNat / 16) ∧
+    unhexDigit (upperHex (b.toNat % 16)) = some (b.toNat % 16) ∧
+    UInt8.ofNat (b.toNat / 16 * 16 + b.toNat % 16) = b := by
+  revert b
+  apply byte_cases
+  decide
+
+set_option maxRecDepth 100000 in
+theorem unhex_lower (b : UInt8) :
+    unhexDigit (lowerHex (b.toNat / 16)) = some (b.toNat / 16) ∧
+    unhexDigit (lowerHex (b.toNat % 16)) = some (b.toNat % 16) ∧
+    UInt8.ofNat (b.toNat / 16 * 16 + b.toNat % 16) = b := by
+  revert b
+  apply byte_cases
+  decide
+
+theorem pathUnescape_encodeWith (cs : List (UInt8 × Esc)) (h : conformant cs = true) :
+    pathUnescape (encodeWith cs) = some (cs.map (·.1)) := by
+  induction cs with
+  | nil => rfl
+  | cons be t ih =>
+    obtain ⟨b, e⟩ := be
+    unfold conformant at h ih
+    simp only [List.all_cons, Bool.and_eq_true] at h
+    have iht := ih h.2
+    cases e with
+    | plain =>
+      have hb : shouldEscape b = false := by simpa using h.1
+      have hp := percent_byte_plain b hb
+      simp only [encodeWith, encodeByte, List.cons_append, List.nil_append]
+      unfold pathUnescape
+      simp [hp, iht]
+    | upper =>
+      obtain ⟨h1, h2, h3⟩ := unhex_upper b
+      simp only [encodeWith, encodeByte, List.cons_append, List.nil_append]
+      unfold pathUnescape
+      simp [h1, h2, h3, iht]
+    | lower =>
+      obtain ⟨h1, h2, h3⟩ := unhex_lower b
+      simp only [encodeWith, encodeByte, List.cons_append, List.nil_append]
+      unfold pathUnescape
+      simp [h1, h2, h3, iht]
+
+theorem percentEncode_own (m : Bytes) : percentEncode m = encodeWith (ownChoice m) := by
+  induction m with
+  | nil => rfl
+  | cons b t ih =>
+    unfold percentEncode ownChoice
+    by_cases he : shouldEscape b = true
+    · simp only [he, if_true, List.map_cons, encodeWith, encodeByte, List.cons_append, List.nil_append]
+      rw [ih]; rfl
+    · have he' : shouldEscape b = false := by simpa using he
+      simp only [he', Bool.false_eq_true, if_false, List.map_cons, encodeWith, encodeByte, List.cons_append,
+        List.nil_append]
+      rw [ih]; rfl
+
+theorem ownChoice_conformant (m : Bytes) : conformant (ownChoice m) = true := by
+  unfold conformant ownChoice
+  simp only [List.all_map, List.all_eq_true]
+  intro b _
+  by_cases he : shouldEscape b = true
+  · simp [he]
+  · have he' : shouldEscape b = false := by simpa using he
+    simp [he']
+
+theorem ownChoice_bytes (m : Bytes) : (ownChoice m).map (·.1) = m := by
+  simp [ownChoice, List.map_map, Function.comp_def]
+
+/-! ### metadata / http.Header read back -/
+
+theorem mdGet_not_mem (md : MD) (k : Str) (h : k ∉ mdKeys md) : mdGet md k = [] := by
+  induction md with
+  | nil => rfl
+  | cons kv t ih =>
+    obtain ⟨k', vs'⟩ := kv
+    simp only [mdKeys, List.map_cons, List.mem_cons, not_or] at h
+    rw [mdGet_cons, if_neg h.1]
+    exact ih (by simpa [mdKeys] using h.2)
+
+/-- a header list that came out of a map with distinct, already normalised keys holds under
+every key exactly the map's values -/
+theorem valuesFor_convert (norm : Str → Str) (md : MD) (hn : ∀ kv ∈ md, norm kv.1 = kv.1)
+    (hnd : (mdKeys md).Nodup) (k : Str) :
+    valuesFor norm (fun _ v => v) (convertToProtoHeader md) k = mdGet md k := by
+  induction md with
+  | nil => rfl
+  | cons kv t ih =>
+    obtain ⟨k', vs'⟩ := kv
+    have hk' : norm k' = k' := hn (k', vs') (by simp)
+    simp only [mdKeys, List.map_cons, List.nodup_cons] at hnd
+    have iht := ih (fun kv hkv => hn kv (by simp [hkv])) (by simpa [mdKeys] using hnd.2)
+    have hc : convertToProtoHeader ((k', vs') :: t) = ⟨k', vs'⟩ :: convertToProtoHeader t := rfl
+    rw [hc, valuesFor_cons, mdGet_cons, iht]
+    simp only [hk', List.map_id']
+    by_cases hk : k = k'
+    · subst hk
+      have : mdGet t k = [] := mdGet_not_mem t k (by simpa [mdKeys] using hnd.1)
+      simp [this]
+    · have hk2 : ¬ k' = k := fun e => hk e.symm
+      simp [hk, hk2]
+
 /-! ## sequences of codec calls -/
 
 theorem runCalls_append {M} (c : Codec M) (a b : List (Call M)) (st : CallState M) :
